@@ -19,8 +19,9 @@ from pipeline import (ENV_BASE, HARNESS, REPO, WORK, ToolError, build_gen, harne
 def render_derive(inp):
     shape, attr, enum, second = inp["shape"], inp["attr"], inp["enum"], inp["second"]
     bytes_mode = enum == "utf8_false"
-    slice_ty = "&'s [u8]" if bytes_mode else "&'s str"
-    cb = "|lex| lex.slice()" if shape == "field1" else "|_| true"
+    generic_form = enum.startswith("gen_")
+    slice_ty = "u32" if generic_form else "&'s [u8]" if bytes_mode else "&'s str"
+    cb = ("|_| 1u32" if generic_form else "|lex| lex.slice()") if shape == "field1" else "|_| true"
     A = {
         "tok_ok": '#[token("x")]',
         "rx_ok": '#[regex("[a-c]+")]',
@@ -76,13 +77,30 @@ def render_derive(inp):
         "source_deprecated": ["#[logos(source = [u8])]"],
         "error_attr_variant": [], "const_generic": [],
         "dup_error_cb": ["#[logos(error(MyErr, callback = |_| MyErr, callback = |_| MyErr))]"],
+        "gen_lt": [], "gen_two_lt_attr": ["#[logos(lifetime = 'a)]"], "gen_lt_none": ["#[logos(lifetime = none)]"],
+        "gen_type_ok": ["#[logos(type T = u32)]"], "gen_type_lt_order": ["#[logos(type T = &'a str, lifetime = 'a)]"],
+        "gen_two_lt_no_attr": [], "gen_lt_undeclared": ["#[logos(lifetime = 'z)]"], "gen_lt_dup": ["#[logos(lifetime = 'a, lifetime = 'a)]"],
+        "gen_type_missing": [], "gen_type_undeclared": ["#[logos(type U = u32)]"], "gen_type_dup": ["#[logos(type T = u32, type T = u32)]"],
     }[enum]
+    GEN = {"gen_lt": ("<'a>", "&'a str", None), "gen_two_lt_attr": ("<'a, 'b>", "&'a str", "&'b u8"), "gen_lt_none": ("<'a>", None, "&'a u8"),
+           "gen_type_ok": ("<T>", "T:|_| 1u32", None), "gen_type_lt_order": ("<'a, T>", "T:|lex| lex.slice()", "&'a u8"),
+           "gen_two_lt_no_attr": ("<'a, 'b>", "&'a str", "&'b u8"), "gen_lt_undeclared": ("<'a>", "&'a str", None), "gen_lt_dup": ("<'a>", "&'a str", None),
+           "gen_type_missing": ("<T>", "T:|_| 1u32", None), "gen_type_undeclared": ("", None, None), "gen_type_dup": ("<T>", "T:|_| 1u32", None)}
     generics = []
-    if shape == "field1":
+    if shape == "field1" and not generic_form:
         generics.append("'s")
     if enum == "const_generic":
         generics.append("const N: usize")
     gen = "<%s>" % ", ".join(generics) if generics else ""
+    extra_variants = ""
+    if generic_form:
+        gen, slice_field, other_field = GEN[enum]
+        if slice_field and slice_field.startswith("T:"):
+            extra_variants += '    #[regex("[0-9]+", %s)]\n    Num(T),\n' % slice_field[2:]
+        elif slice_field:
+            extra_variants += '    #[regex("[0-9]+")]\n    Num(%s),\n' % slice_field
+        if other_field:
+            extra_variants += '    #[regex("%%+", |_| &0u8)]\n    Pct(%s),\n' % other_field
     X = {"unit": "X", "field1": "X(%s)" % slice_ty, "named": "X { a: u32 }", "tuple0": "X()", "field2": "X(u32, u32)"}[shape]
     S = {"none": "", "other_ok": '    #[token("zz")]\n    Y,\n', "same_tok": '    #[token("x")]\n    Y,\n', "overlap_same_prio": '    #[regex("[xy]")]\n    Y,\n'}[second]
     lines = ["#[derive(Logos, Debug, PartialEq, Clone)]", '#[logos(subpattern opt = "x?")]'] + E
@@ -90,7 +108,7 @@ def render_derive(inp):
     if A:
         lines.append("    " + A)
     lines.append("    %s," % X)
-    src = "\n".join(lines) + "\n" + S
+    src = "\n".join(lines) + "\n" + S + extra_variants
     if enum == "error_attr_variant":
         src += "    #[error]\n    Err,\n"
     if enum == "const_generic":
